@@ -154,9 +154,20 @@ func (ctx *Ctx) genFunc(fn *ssa.Function, ct *Contract, houdini map[int][]*Claus
 	if ct != nil {
 		for _, cs := range ct.LoopStep {
 			for _, c := range cs {
-				if g.atReturnUsed["step:"+c.Text] == 0 && len(f.loops) > 0 {
+				if g.atReturnUsed["step:"+c.Text] == 0 {
 					g.failClause("contract", "loop step "+c.Text, "applies to no back edge (a variable it names is not in scope there, or the loop is gone)")
 				}
+			}
+		}
+		for ord, cs := range ct.LoopInv {
+			exists := false
+			for _, li := range f.loops {
+				if li.Ordinal == ord {
+					exists = true
+				}
+			}
+			if !exists && len(cs) > 0 {
+				g.failClause("contract", fmt.Sprintf("loop %d invariant %s", ord, cs[0].Text), "the function has no such loop")
 			}
 		}
 		for _, ac := range ct.AtCall {
